@@ -13,3 +13,4 @@ open Neutrino.CFHeaders
 #print axioms genesis_inv
 #print axioms C03_detect_early_return
 #print axioms C03_honest_wins_counterexample_zero
+#print axioms C03_honest_wins_partial
